@@ -182,8 +182,18 @@ WPreds ==
         Bn(">", Call("len", Own("xs")), NumA("0")), Bn("=", Call("len", Own("fx")), NumA("3")),
         Bn("<", Call("sum", Own("xs")), Call("prod", Fld(VarR("@A"), "xs"))), Bn("=", Call("str", Own("n")), Own("s")),
         Bn("=", Call("int", Own("s")), Own("k")), Bn("and", Call("bool", Own("n")), Own("b")) }
+\* the same field NAME with different types in the message types of two events of one property
+\* (channel w carries Other{n: string, q: number})
+WTwoEvents ==
+  {Prop(Scope("globally", NoPred, NoPred), Pat2(t, Ev("t", "A", Pr(c1)), Ev("w", "", Pr(c2)))) :
+      t \in {"causes", "forbids"},
+      c1 \in {Bn(">", Call("abs", Own("n")), NumA("0")), Bn(">", Own("n"), NumA("0")), Bn(">", Call("len", Own("xs")), Own("n"))},
+      c2 \in {Bn("=", Own("n"), StrA("$s")), Bn("and", Bn("=", Own("n"), StrA("$s")), Bn("<", Own("q"), Fld(VarR("@A"), "n"))),
+              Bn("=", Call("str", Own("q")), Own("n"))}}
+  \cup {Prop(Scope("after", Ev("w", "W", Pr(Bn("=", Own("n"), StrA("$s")))), NoPred), Pat1("no", Ev("u", "", Pr(c)))) :
+      c \in {Bn(">", Call("abs", Own("n")), NumA("0")), Bn("and", Bn(">", Own("n"), NumA("1")), Bn("=", Own("s"), Fld(VarR("@W"), "n")))}}
 WellTypedShapes ==
-  {Prop(Scope("after", Ev("t", "A", NoPred), NoPred), Pat1("no", Ev("u", "", Pr(c)))) : c \in WPreds}
+  {Prop(Scope("after", Ev("t", "A", NoPred), NoPred), Pat1("no", Ev("u", "", Pr(c)))) : c \in WPreds} \cup WTwoEvents
 
 ShapeMembers ==
   CASE ShapeFamily = "simple" -> SimpleShapes
